@@ -3,6 +3,7 @@ use encoding_rs::Encoding;
 use log::*;
 use std::{
     borrow::Cow,
+    collections::HashSet,
     fmt::Display,
     fs::{File, OpenOptions},
     io::{self, IsTerminal, Read, Seek, SeekFrom, Write},
@@ -73,6 +74,14 @@ impl FileFormatter {
                     expanded_paths.push(Ok(path.to_path_buf()));
                 }
             }
+        });
+
+        // The same file can be named more than once (e.g. `pasfmt src src/unit1.pas`). Two workers
+        // rewriting one file at the same time can corrupt it, so only its first mention is kept.
+        let mut seen = HashSet::new();
+        expanded_paths.retain(|path| match path.as_ref().map(|path| path.canonicalize()) {
+            Ok(Ok(canonical_path)) => seen.insert(canonical_path),
+            _ => true,
         });
 
         expanded_paths
